@@ -988,10 +988,23 @@ namespace nmtools::view
 
             auto c = view::reshape(b,tf_rhs_shape);
 
-            return view::sum(
+            auto result = view::sum(
                 view::multiply(a,c)
                 , sum_axis
             );
+            // NOTE: the contracted extents must be equal, broadcasting in multiply would accept 1 against n
+            using result_t = decltype(result);
+            if constexpr (meta::is_maybe_v<result_t>) {
+                if (has_value(result)) {
+                    const auto& m_rhs_shape = unwrap(rhs_shape);
+                    auto lhs_k = (nm_size_t)at(unwrap(lhs_shape),meta::ct_v<-1>);
+                    auto rhs_k = (nm_size_t)(len(m_rhs_shape) == 1 ? at(m_rhs_shape,0) : at(m_rhs_shape,len(m_rhs_shape)-2));
+                    if (lhs_k != rhs_k) {
+                        return result_t{meta::Nothing};
+                    }
+                }
+            }
+            return result;
         }
     } // matmulv2
 } // nmtools::view
